@@ -20,13 +20,13 @@ RECLIMIT = 300
 SUBS = ("Sub1", "Sub2", "Sub3")
 PARENT = {"Sub1": "Base", "Sub2": "Base", "Sub3": "Sub1"}
 FIELDS = {"Base": [], "Sub1": ["a"], "Sub2": ["b"], "Sub3": ["a", "c"]}
-TAG = {"Base": "base", "Sub1": "s1", "Sub2": "s2", "Sub3": "s3"}
+TAG = {"Base": "base", "Sub1": "s1", "Sub2": 0, "Sub3": ""}       # falsy tags are tags too
 FULL = {"a": 1, "b": 2, "c": 3}
 SHAPES = {"A": {"a": 1}, "B": {"b": 2}, "AC": {"a": 1, "c": 3}, "Z": {"z": 0}}
 
 
 def bounds(tier):
-    return dict(tier=tier, wirings=["config", "holder", "codec"], settings=len(_settings()), history_depth=6 if tier == "quick" else 8,
+    return dict(tier=tier, wirings=["config", "holder", "holder2 (two discriminated fields, two tagger functions)", "codec"], settings=len(_settings()), history_depth=6 if tier == "quick" else 8,
                 subclasses=list(SUBS))
 
 
@@ -41,10 +41,12 @@ def _settings():
 
 def units(tier):
     out = []
-    for wiring in ("config", "holder", "codec"):
+    for wiring in ("config", "holder", "holder2", "codec"):
         for st in _settings():
             if wiring == "config" and not st[1]:
                 continue      # a Config discriminator requires include_subtypes (documented ValueError)
+            if wiring == "holder2" and not (st[0] and st[3]):
+                continue      # the two-field holder is about two different tagger functions
             out.append((wiring, st, 6 if tier == "quick" else 8))
     return out
 
@@ -72,7 +74,7 @@ class Fam:
         disc = (f"Discriminator(field={field!r}, include_subtypes={subt}, include_supertypes={supt}"
                 + (", variant_tagger_fn=_tagger" if tagger else "") + ")")
         self.disc_src = disc
-        base = "DataClassDictMixin" if wiring in ("config", "holder") else ""
+        base = "DataClassDictMixin" if wiring in ("config", "holder", "holder2") else ""
         src = f"@dataclass\nclass Base({base}):\n    t: ClassVar[str] = 'base'\n"
         if wiring == "config":
             src += f"    class Config(BaseConfig):\n        discriminator = {disc}\n"
@@ -81,6 +83,13 @@ class Fam:
         self.decoder = None
         if wiring == "holder":
             self.ctx.run(f"@dataclass\nclass Holder(DataClassDictMixin):\n    x: Annotated[Base, {disc}]\n")
+        elif wiring == "holder2":
+            # a second, independent hierarchy discriminated by ANOTHER tagger function in the same holder class
+            ns["_tagger2"] = lambda cls: "o-" + cls.__name__.lower()
+            self.ctx.run("@dataclass\nclass Other:\n    pass\n@dataclass\nclass OSub(Other):\n    o: int = 9\n")
+            disc2 = "Discriminator(field='t', include_subtypes=True, variant_tagger_fn=_tagger2)"
+            self.ctx.run(f"@dataclass\nclass Holder(DataClassDictMixin):\n    x: Annotated[Base, {disc}]\n"
+                         f"    y: Annotated[Other, {disc2}] = None\n")
         elif wiring == "codec":
             self.ctx.run(f"_shape = Annotated[Base, {disc}]")
             self.decoder = BasicDecoder(ns["_shape"])
@@ -98,6 +107,11 @@ class Fam:
             return ns["Base"].from_dict(d)
         if self.wiring == "holder":
             return ns["Holder"].from_dict({"x": d}).x
+        if self.wiring == "holder2":
+            r = ns["Holder"].from_dict({"x": d, "y": {"t": "o-osub", "o": 4}})
+            if type(r.y) is not ns["OSub"] or r.y.o != 4:
+                raise AssertionError(f"second discriminated field decoded as {r.y!r}")
+            return r.x
         return self.decoder.decode(d)
 
     def dispose(self):
